@@ -12,14 +12,17 @@ h       `mem/<0|1>`             in-memory zone, AXFR denied / allowed
 flow    `S` | `Co` | `Cr` (referral) | `Cz` | `Ce<rc>` | `Bo` | `Br` | `Bz` | `Be<rc>`
 prefix  `4:<addr>/<len>` | `6:<addr>/<len>`   (address as a decimal natural)
 src     `4:<addr>` | `6:<addr>`
-body    `ok` | `bad` | `na`     what the real decoder says about the rest of the message
-edns    `-` | <version>
+body    `ok` | `bad` | `na`     what the real decoder says about the rest of the message — informative
+edns    `-` | <version>          only: the model decodes the request itself (`ServerGate.bodyOf`,
+                                 the C01 model of `Request::from_bytes`); its verdict is printed as
+                                 `body=` on every reply line and compared with the real decoder's
 zl      `-` | <zone>.<handler>:<flow>,…   for every in-memory handler: what its own lookup code
         returns for this question (zone content is C10's business; the driver puts the value into
         the handler's `search` field before running the model)
 -/
 import HickoryVerif.Drv.Proto
 import HickoryVerif.Model.ServerGate
+import HickoryVerif.Model.ServerRequest
 
 namespace HickoryVerif.Drv.C11
 open HickoryVerif HickoryVerif.Drv HickoryVerif.ServerGate
@@ -104,10 +107,10 @@ def showCall : Call → String
   | .xfer z h => s!"x{z}.{h}"
 
 /-- `qb`: the question section of the response = `Queries::original` of the request when echoed -/
-def showReply (qb : Bytes) (r : Reply) : String :=
+def showReply (qb : Bytes) (body : String) (r : Reply) : String :=
   let rc := match r.rcode with | some n => toString n | none => "*"
   let log := if r.calls.isEmpty then "-" else ",".intercalate (r.calls.map showCall)
-  s!"reply qr={showBool r.qr} rc={rc} id={r.id} op={r.opcode} rd={showBool r.rd} cd={showBool r.cd} aa={showBool r.aa} ra={showBool r.ra} q={showBool r.echo} qb={toHex (if r.echo then qb else [])} opt={showBool r.opt} log={log}"
+  s!"reply qr={showBool r.qr} rc={rc} id={r.id} op={r.opcode} rd={showBool r.rd} cd={showBool r.cd} aa={showBool r.aa} ra={showBool r.ra} q={showBool r.echo} qb={toHex (if r.echo then qb else [])} opt={showBool r.opt} log={log} body={body}"
 
 def showGate (buf : Bytes) : Gate → String
   | .drop => "drop"
@@ -116,7 +119,7 @@ def showGate (buf : Bytes) : Gate → String
     let qb := match readHeader buf with
       | some h => (match readQueries buf h.qd with | .ok q => q.raw | _ => [])
       | none => []
-    showReply qb r
+    showReply qb (bodyToken buf) r
   | .panic s => "panic " ++ s
 
 def parseBody (b e : String) : Option Body :=
@@ -152,11 +155,11 @@ def step (s : State) (toks : List String) : State × String :=
     | some cat, some d, some a => (some { acl := { deny := d, allow := a }, catalog := cat }, "ok")
     | _, _, _ => (none, "bad-op")
   | ["end"] => (none, "ok")
-  | ["req", _proto, src, bytes, body, edns, zl] =>
-    match s, parseIp src, parseHex bytes, parseBody body edns, parseZl zl with
-    | some cfg, some ip, some buf, some b, some zl =>
-      (s, showGate buf (handleRequest { cfg with catalog := substZl cfg.catalog zl } ip buf b))
-    | _, _, _, _, _ => (s, "bad-op")
+  | ["req", _proto, src, bytes, _body, _edns, zl] =>
+    match s, parseIp src, parseHex bytes, parseZl zl with
+    | some cfg, some ip, some buf, some zl =>
+      (s, showGate buf (serve { cfg with catalog := substZl cfg.catalog zl } ip buf))
+    | _, _, _, _ => (s, "bad-op")
   | _ => (s, "bad-op")
 
 end HickoryVerif.Drv.C11
